@@ -5,25 +5,12 @@ the free variables; rotations become rational matrices; nothing here computes me
 import torch
 import torchphysics as tp
 from torchphysics.problem.spaces import Points, Space
+from .astutil import slopes, aff_vars, space_vars, free_vars
 
 F = 256
 ROT = {"r0": (1, 0, 1), "r90": (0, 1, 1), "r180": (-1, 0, 1), "r270": (0, -1, 1),
        "p345": (4, 3, 5), "m345": (4, -3, 5), "p51213": (12, 5, 13)}
 SPACES = {"x": 2, "u": 1, "y": 3, "z": 1, "t": 1, "k": 1}
-
-
-def slopes(a):
-    k = a.get("k") or {}
-    return {n: s for n, s in (k.items() if isinstance(k, dict) else []) if s != 0}
-
-
-def aff_vars(av):
-    vs = []
-    for a in (av if isinstance(av, list) else [av]):
-        for n in slopes(a):
-            if n not in vs:
-                vs.append(n)
-    return vs
 
 
 def mk_fun(av, scalar=False):
@@ -106,38 +93,6 @@ def build(e):
     if k == "bdr":
         return build(e["d"]).boundary_right
     raise ValueError(k)
-
-
-def space_vars(e):
-    k = e["k"]
-    if k in ("interval", "point", "par", "tri", "circle", "sphere"):
-        return [e["v"]]
-    if k in ("union", "cut", "and"):
-        return space_vars(e["l"])
-    if k == "prod":
-        return space_vars(e["l"]) + space_vars(e["r"])
-    return space_vars(e["d"])
-
-
-def free_vars(e):
-    k = e["k"]
-    if k == "interval":
-        return set(aff_vars([e["lo"], e["hi"]]))
-    if k == "point":
-        return set(aff_vars(e["p"]))
-    if k in ("par", "tri"):
-        return set(aff_vars(e["o"] + e["a"] + e["b"]))
-    if k in ("circle", "sphere"):
-        return set(aff_vars(e["c"] + [e["r"]]))
-    if k in ("union", "cut", "and"):
-        return free_vars(e["l"]) | free_vars(e["r"])
-    if k == "prod":
-        return (free_vars(e["l"]) - set(space_vars(e["r"]))) | free_vars(e["r"])
-    if k == "trans":
-        return free_vars(e["d"]) | set(aff_vars(e["t"]))
-    if k == "rot":
-        return free_vars(e["d"]) | set(aff_vars(e["p"]))
-    return free_vars(e["d"])
 
 
 def mk_params(names, rows):
